@@ -153,6 +153,12 @@ func run(c *lib.Ctx) error {
 	if c.Thorough() {
 		nWraps, nCfg = 6, 16
 	}
+	var lsTerms []string
+	lsIn := map[int]c01in{}
+	maxLS := 240
+	if c.Thorough() {
+		maxLS = 2400
+	}
 	repTerms := map[string]string{}
 	var defs strings.Builder
 	runAssets := func(tag string, ls *lib.Livesim, assets []*lib.TLAsset, gens []lib.GenAsset) {
@@ -228,6 +234,21 @@ func run(c *lib.Ctx) error {
 						if o.Status == 200 {
 							distinct[fmt.Sprintf("%s/%s/%s/%d", a.Path, r.ID, cfg.URLPrefix(), n)] = true
 						}
+						// the fragment rewrite of genLiveSegment (video only; stpp takes another path): a sample of
+						// the responses, always those with a decode time that needs 64 bits
+						if r.Kind == "video" && o.Status == 200 && o.SrcIdx >= 0 && (o.Tfdt >= 1<<32 || rng.Intn(8) == 0) && len(lsTerms) < maxLS {
+							vod, err1 := os.ReadFile(filepath.Join(r.Dir, r.Segs[o.SrcIdx].File))
+							if err1 == nil {
+								vf, e1 := lib.FragRecords(vod, r.Trex)
+								sf, e2 := lib.FragRecords(o.Body, r.Trex)
+								if e1 == nil && e2 == nil {
+									lsIn[len(lsTerms)] = in
+									lsTerms = append(lsTerms, fmt.Sprintf("{| c_id := %d; k_vod := %s; k_newNr := %d; k_newTime := %d; o_out := %s |}",
+										len(lsTerms), lib.CoqFrags(vf), o.Seq, o.Tfdt, lib.CoqFrags(sf)))
+									c.Count("rewrite/" + fmt.Sprint(len(vf)) + "-fragments")
+								}
+							}
+						}
 						am := "ByNumber"
 						if mode == "tlt" {
 							am = "ByTime"
@@ -283,6 +304,21 @@ func run(c *lib.Ctx) error {
 	for i := 0; i < 3 && i < len(ins); i++ {
 		k := (i * 7919) % len(ins)
 		c.Sample(map[string]any{"request": ins[k].URL, "status": obs[k].Status, "tfdt": obs[k].Tfdt, "seq": obs[k].Seq, "source_index": obs[k].SrcIdx})
+	}
+	// case ids of the rewrite cases continue after the lookup cases
+	for i := range lsTerms {
+		id := len(terms) + i
+		lsTerms[i] = strings.Replace(lsTerms[i], fmt.Sprintf("{| c_id := %d;", i), fmt.Sprintf("{| c_id := %d;", id), 1)
+		c.Res.Inputs[fmt.Sprint(id)] = lsIn[i]
+	}
+	c.Res.ModelCases = len(terms) + len(lsTerms)
+	for s := 0; s*120 < len(lsTerms); s++ {
+		e := (s + 1) * 120
+		if e > len(lsTerms) {
+			e = len(lsTerms)
+		}
+		c.WriteCases(fmt.Sprintf("cases_C01L_%d.v", s),
+			lib.CasesFile("From Verif Require Import GoSem LiveSeg CorrLiveSeg.", "lscase", "", lsTerms[s*120:e], "model_view"))
 	}
 	shard := 400
 	for s := 0; s*shard < len(terms); s++ {
@@ -363,6 +399,9 @@ func oracle(c *lib.Ctx, id string, a *lib.TLAsset, r *lib.TLRep, in c01in, o lib
 	}
 	if o.Dur != r.LoopE(in.N)-r.LoopS(in.N) {
 		c.Fail(id, "duration", fmt.Sprintf("duration %d, expected %d", o.Dur, r.LoopE(in.N)-r.LoopS(in.N)), in)
+	}
+	if o.FragFault != "" {
+		c.Fail(id, "fragment", o.FragFault, in)
 	}
 	if prev != nil && prev.Status == 200 && prev.Tfdt+prev.Dur != o.Tfdt {
 		c.Fail(id, "gap", fmt.Sprintf("segment starts at %d, previous ended at %d", o.Tfdt, prev.Tfdt+prev.Dur), in)
